@@ -92,15 +92,20 @@ def encrypt_once(world, alg, enc, curve, ser, header_extra=None, variant=0):
         tok = jwe.encrypt_compact(hdr, b"same plaintext", pub, algorithms=jweplan.ALL_NAMES, sender_key=spriv)
     else:
         cls = jwe.FlattenedJSONEncryption if ser == "flattened" else jwe.GeneralJSONEncryption
+        # general JSON: one message for 1-3 recipients (same algorithm, same recipient key): every recipient gets values of its own
+        nrec = 1 + (variant // 3) % 3 if (ser == "general" and alg not in rjwe.DIRECT) else 1
         if variant % 3 == 0:
             o = cls({"enc": enc}, b"same plaintext")
-            o.add_recipient({"alg": alg}, pub)
+            for _ in range(nrec):
+                o.add_recipient({"alg": alg}, pub)
         elif variant % 3 == 1:
             o = cls({"alg": alg, "enc": enc}, b"same plaintext")       # alg protected, recipient without a header of its own
-            o.add_recipient(None, pub)
+            for _ in range(nrec):
+                o.add_recipient(None, pub)
         else:
             o = cls({"alg": alg, "enc": enc}, b"same plaintext")
-            o.add_recipient(key=pub)                                     # header argument left out altogether
+            for _ in range(nrec):
+                o.add_recipient(key=pub)                                 # header argument left out altogether
         tok = jwe.encrypt_json(o, None, algorithms=jweplan.ALL_NAMES, sender_key=spriv)
     return tok
 
@@ -132,6 +137,7 @@ def observe(world, alg, enc, curve, tok) -> dict:
         iv = rb.decode(tok["iv"])
         ent = (tok.get("recipients") or [tok])[0]
         hdr = {**prot, **(tok.get("unprotected") or {}), **(ent.get("header") or {})}
+    # one record: every recipient of the message was given the same key
     plan = {"recipients": [{"alg": alg, "key": gk.key_to_record(ref), "header": None, "kid": None}], "sender": gk.key_to_record(sref) if sref else None}
     obs = {"iv": iv}
     try:
@@ -151,7 +157,43 @@ def observe(world, alg, enc, curve, tok) -> dict:
     if alg in rjwe.PBES2:
         obs["p2s"] = rb.decode(hdr["p2s"])
         obs["p2c"] = hdr["p2c"]
+    # further recipients of the same message: their effective header values are observations of their own
+    obs["more"] = []
+    if not isinstance(tok, str):
+        for ent in (tok.get("recipients") or [])[1:]:
+            h2 = {**prot, **(tok.get("unprotected") or {}), **(ent.get("header") or {})}
+            o2 = {}
+            if "epk" in h2:
+                o2["epk"] = h2["epk"]
+            if alg in rjwe.GCMKW_SIZE and "iv" in h2:
+                o2["gcmkw-iv"] = rb.decode(h2["iv"])
+            if alg in rjwe.PBES2 and "p2s" in h2:
+                o2["p2s"], o2["p2c"] = rb.decode(h2["p2s"]), h2.get("p2c")
+            obs["more"].append(o2)
     return obs
+
+
+def _judge_agreement_values(obs, alg, curve, groups, f):
+    """epk, A*GCMKW iv and PBES2 salt of one recipient."""
+    if "epk" in obs:
+        epk = obs["epk"]
+        try:
+            p = rk.parse_jwk(epk, strict=True)
+            if p.get("crv") != curve or rk.is_private(p):
+                f[f"C18:epk-curve:{curve}"] = f"epk {epk!r} for a recipient key on {curve}"
+        except rk.JWKError as e:
+            f[f"C18:epk-invalid:{curve}"] = f"{epk!r}: {e}"
+        groups[("epk", curve)].append(json.dumps(epk, sort_keys=True).encode())
+    if "gcmkw-iv" in obs:
+        if len(obs["gcmkw-iv"]) != 12:
+            f["C18:gcmkw-iv-size"] = f"{len(obs['gcmkw-iv'])} octets"
+        groups[("gcmkw-iv", 12)].append(obs["gcmkw-iv"])
+    if "p2s" in obs:
+        if len(obs["p2s"]) < 8:
+            f["C18:p2s-too-short"] = f"{len(obs['p2s'])} octets"
+        if not (isinstance(obs["p2c"], int) and obs["p2c"] >= 1000):
+            f["C18:default-p2c-too-small"] = repr(obs["p2c"])
+        groups[("p2s", len(obs["p2s"]))].append(obs["p2s"])
 
 
 # ------------------------------------------------------------------ history check
@@ -159,7 +201,15 @@ def check_history(records, f, where):
     """records: list of (config tuple, obs dict)."""
     from collections import defaultdict
     groups = defaultdict(list)
-    for (alg, enc, curve, ser), obs in records:
+    flat = []
+    for cfg, obs in records:
+        flat.append((cfg, obs))
+        for o2 in obs.get("more", []):
+            flat.append((cfg, {"_extra": True, **o2}))
+    for (alg, enc, curve, ser), obs in flat:
+        if obs.get("_extra"):
+            _judge_agreement_values(obs, alg, curve, groups, f)
+            continue
         cek_len, iv_len = rjwe.ENCS[enc]
         if len(obs["iv"]) != iv_len:
             f[f"C18:iv-size:{enc}"] = f"IV of {len(obs['iv'])} octets for {enc}"
@@ -170,25 +220,7 @@ def check_history(records, f, where):
         groups[("iv", iv_len)].append(obs["iv"])
         if alg != "dir" and "cek" in obs:
             groups[("cek", cek_len)].append(obs["cek"])
-        if "epk" in obs:
-            epk = obs["epk"]
-            try:
-                p = rk.parse_jwk(epk, strict=True)
-                if p.get("crv") != curve or rk.is_private(p):
-                    f[f"C18:epk-curve:{curve}"] = f"epk {epk!r} for a recipient key on {curve}"
-            except rk.JWKError as e:
-                f[f"C18:epk-invalid:{curve}"] = f"{epk!r}: {e}"
-            groups[("epk", curve)].append(json.dumps(epk, sort_keys=True).encode())
-        if "gcmkw-iv" in obs:
-            if len(obs["gcmkw-iv"]) != 12:
-                f["C18:gcmkw-iv-size"] = f"{len(obs['gcmkw-iv'])} octets"
-            groups[("gcmkw-iv", 12)].append(obs["gcmkw-iv"])
-        if "p2s" in obs:
-            if len(obs["p2s"]) < 8:
-                f["C18:p2s-too-short"] = f"{len(obs['p2s'])} octets"
-            if not (isinstance(obs["p2c"], int) and obs["p2c"] >= 1000):
-                f["C18:default-p2c-too-small"] = repr(obs["p2c"])
-            groups[("p2s", len(obs["p2s"]))].append(obs["p2s"])
+        _judge_agreement_values(obs, alg, curve, groups, f)
     for (kind, size), vals in groups.items():
         if len(set(vals)) != len(vals):
             dup = next(v for v in vals if vals.count(v) > 1)
@@ -272,7 +304,7 @@ def child_main(argv):
     recs = run_history(h, int(argv[1]), f)
     out = []
     for cfg, obs in recs:
-        out.append([list(cfg), {k: (v.hex() if isinstance(v, bytes) else v) for k, v in obs.items()}])
+        out.append([list(cfg), {k: (v.hex() if isinstance(v, bytes) else v) for k, v in obs.items() if k != "more"}])
     # generated keys
     from joserfc.jwk import OctKey, ECKey, OKPKey
     random.seed(h["host_seed"] or 0)
@@ -293,7 +325,7 @@ def run_forked(h, n_per_config, k=4):
     def child():
         f = {}
         recs = run_history(dict(h, host_seed=None, reencrypt=False), n_per_config, f)
-        return [[list(cfg), {k_: (v.hex() if isinstance(v, bytes) else v) for k_, v in obs.items()}] for cfg, obs in recs]
+        return [[list(cfg), {k_: (v.hex() if isinstance(v, bytes) else v) for k_, v in obs.items() if k_ != "more"}] for cfg, obs in recs]
     return [{"records": in_child(child), "keys": [], "findings": {}} for _ in range(k)]
 
 
